@@ -68,6 +68,7 @@ CATALOGUE = {
     25: ("save_to on a question in a group nested inside a repeat", True),
     26: ("duplicate choice name where one or both rows have media but no label", True),
     27: ("value=/label= parameters on a choices-sheet select, alone / before / after a select-from-file row", False),
+    28: ("two select-from-file rows whose files share a stem but differ in extension (same instance id, different source)", False),
 }
 
 
@@ -191,6 +192,12 @@ def mutate(m: int, site: int, blanks: int, x: str):
             rows.append(ff)
         elif site % 3 == 2:
             rows.insert(0, ff)
+    elif m == 28:
+        exts = [("csv", "xml"), ("xml", "csv"), ("csv", "geojson"), ("geojson", "xml")][site % 4]
+        kinds = ["select_one_from_file", "select_multiple_from_file"]
+        rows.append({"type": kinds[site % 2] + " " + x + "." + exts[0], "name": "f1", "label": "F1"})
+        rows.append({"type": kinds[(site // 2) % 2] + " " + x + "." + exts[1], "name": "f2", "label": "F2"})
+        subject = x
     rows = [{} for _ in range(blanks)] + rows
     wb["survey"] = rows
     wb["choices"] = choices
@@ -244,7 +251,7 @@ specialise(
     "C17",
     "a.catalogue",
     c17_cat_sym,
-    {"m": [0, 1, 2, 3, 5, 6, 7, 8, 9, 10, 11, 12, 13, 14, 15, 16, 17, 18, 19, 20, 21, 22, 24, 25, 26, 27]},
+    {"m": [0, 1, 2, 3, 5, 6, 7, 8, 9, 10, 11, 12, 13, 14, 15, 16, 17, 18, 19, 20, 21, 22, 24, 25, 26, 27, 28]},
     timeout=300,
     kernel=K,
     shims=("S1", "S2", "S3", "S4"),
